@@ -66,6 +66,7 @@ type referrer struct {
 	Script  []string           `json:"script"`
 	Via     int                `json:"via"`
 	Owner   int                `json:"owner"`
+	First   bool               `json:"first,omitempty"` // its first operation is the first operation of its owner
 	Desc    ocispec.Descriptor `json:"-"`
 	Bytes   []byte             `json:"-"`
 	Want    string             `json:"-"` // normalised descriptor a listing must show
@@ -149,7 +150,18 @@ type round struct {
 	flipAt   atomic.Int64
 	flipTo   bool
 	flipped  atomic.Int64 // clock value of the flip, 0 = not yet
-	reqs     sync.Map     // id -> *reqInfo
+	// ping-race rounds: the first Referrers-API ping (sent by a Delete on a
+	// repository whose capability is still unknown) is held until a push of a
+	// manifest with a subject has been acknowledged; the registry's capability
+	// is flipped just before the ping is answered, so the late answer
+	// contradicts what the push detected.
+	pingRace     bool
+	pingHeld     atomic.Bool
+	pushDone     atomic.Int64
+	heldTillPush atomic.Bool
+	pingSeen     chan struct{}
+	readerRecs   [][2]int64 // call/return clock of every reader call (under mu)
+	reqs         sync.Map   // id -> *reqInfo
 
 	mu        sync.Mutex
 	drng      *rand.Rand
@@ -174,6 +186,8 @@ type round struct {
 	workers  []*wstate
 	byGid    sync.Map // gid -> *wstate
 }
+
+const zeroDigest = "sha256:0000000000000000000000000000000000000000000000000000000000000000"
 
 var refTagRe = regexp.MustCompile(`^sha256-[0-9a-f]{64}$`)
 
@@ -280,6 +294,14 @@ func (h *round) before(rec *regmodel.Record) *regmodel.Response {
 		return nil
 	}
 	ri := v.(*reqInfo)
+	if h.pingRace && ri.Class == "rAPI" && strings.HasSuffix(ri.Path, zeroDigest) && ri.Phase == phaseRun && h.pingHeld.CompareAndSwap(false, true) {
+		close(h.pingSeen)
+		for n := 0; h.pushDone.Load() == 0 && n < 4000; n++ {
+			time.Sleep(500 * time.Microsecond)
+		}
+		h.heldTillPush.Store(h.pushDone.Load() > 0)
+		h.flip()
+	}
 	n := h.totalReq.Add(1)
 	if at := h.flipAt.Load(); at > 0 && n >= at && h.flipped.Load() == 0 {
 		h.flip()
@@ -586,7 +608,13 @@ func runCase(phase string, i int) worker.Result {
 		mode = "flip-to-api"
 	case 7:
 		mode = "flip-to-tags"
+	case 5:
+		mode = "ping-race-to-api"
+	case 9:
+		mode = "ping-race-to-tags"
 	}
+	pingRace := strings.HasPrefix(mode, "ping-race")
+	apiFirst := mode == "flip-to-tags" || mode == "ping-race-to-tags"
 	skipGC := rng.IntN(3) == 0
 	capInit := []string{"set", "auto"}[rng.IntN(2)]
 	nSubj := 1 + rng.IntN(3)
@@ -610,7 +638,9 @@ func runCase(phase string, i int) worker.Result {
 	}
 	h.delayMax["*"] = steps[rng.IntN(3)]
 
-	profile := regmodel.Profile{ReferrersAPI: mode == "flip-to-tags", DigestHeader: true, Ranges: true, HonourN: true}
+	h.pingRace = pingRace
+	h.pingSeen = make(chan struct{})
+	profile := regmodel.Profile{ReferrersAPI: apiFirst, DigestHeader: true, Ranges: true, HonourN: true}
 	h.reg = regmodel.New(profile)
 	h.reg.KeepHeaders = true
 	h.reg.Before = h.before
@@ -657,6 +687,17 @@ func runCase(phase string, i int) worker.Result {
 	for _, sub := range h.subjects {
 		nPre := []int{0, 0, 1, 2, 4}[rng.IntN(5)]
 		sub.Dirty = []string{"", "clean", "clean", "dup", "empty", "both"}[rng.IntN(6)]
+		if pingRace && sub.N == 0 {
+			// the repository already holds referrers of subject 0; two of them are
+			// deleted as the very first operation of workers 0 and 1
+			if sub.Dirty == "" {
+				sub.Dirty = "clean"
+			}
+			if nPre < 2 {
+				nPre = 2
+			}
+			sub.Drain = false
+		}
 		if sub.Dirty == "" {
 			continue
 		}
@@ -668,6 +709,9 @@ func runCase(phase string, i int) worker.Result {
 			r.Script = [][]string{{}, {}, {"delete"}, {"delete"}, {"delete", "push"}}[rng.IntN(5)]
 			if sub.Drain {
 				r.Script = []string{"delete"}
+			}
+			if pingRace && sub.N == 0 && k < 2 {
+				r.Script, r.Owner, r.First = []string{"delete"}, k, true
 			}
 			h.reg.PutManifest(repoName, r.Desc.MediaType, r.Bytes)
 			var e ocispec.Descriptor
@@ -712,6 +756,11 @@ func runCase(phase string, i int) worker.Result {
 			}
 		}
 	}
+	if pingRace {
+		// worker 2 starts with a push of a referrer: the operation that detects the capability
+		r := newRef(rng.IntN(nSubj))
+		r.Owner, r.First, r.Script = 2, true, []string{"push"}
+	}
 	// per worker: random interleaving of its referrers' scripts
 	for _, w := range h.workers {
 		var mine []*referrer
@@ -732,9 +781,16 @@ func runCase(phase string, i int) worker.Result {
 			pos[k]++
 			left--
 		}
+		for k, p := range w.ops {
+			if p.ref.First && p.op == p.ref.Script[0] {
+				copy(w.ops[1:k+1], w.ops[:k])
+				w.ops[0] = p
+				break
+			}
+		}
 	}
 	// faults
-	if mode != "flip-to-tags" && rng.IntN(2) == 0 {
+	if !apiFirst && !pingRace && rng.IntN(2) == 0 {
 		for k, n := 0, 1+rng.IntN(3); k < n; k++ {
 			c := []string{"iGET", "iPUT", "iDEL", "iDEL"}[rng.IntN(4)]
 			hows := []string{"500", "503", "drop", "429"}
@@ -800,7 +856,7 @@ func runCase(phase string, i int) worker.Result {
 				res.Violate("capability:first-set-refused", "SetReferrersCapability(false) on a fresh repository: "+err.Error(), nil)
 			}
 		}
-	} else {
+	} else if !pingRace {
 		detect = []string{"set", "push", "referrers", "delete-pre"}[rng.IntN(4)]
 		if detect == "delete-pre" {
 			for _, r := range h.refs {
@@ -859,6 +915,13 @@ func runCase(phase string, i int) worker.Result {
 			w.gid.Store(g)
 			h.byGid.Store(g, w)
 			<-start
+			if pingRace && w.id >= 2 {
+				// let the Deletes of workers 0 and 1 send their ping while the capability is unknown
+				select {
+				case <-h.pingSeen:
+				case <-time.After(500 * time.Millisecond):
+				}
+			}
 			for _, p := range w.ops {
 				if wrng.IntN(3) == 0 {
 					time.Sleep(time.Duration(wrng.IntN(400)) * time.Microsecond)
@@ -874,6 +937,9 @@ func runCase(phase string, i int) worker.Result {
 				rec.Ret = h.clock.Add(1)
 				w.cur.Store(nil)
 				rec.Class, rec.Err = classify(err)
+				if p.op == "push" && p.ref.Subject >= 0 && err == nil {
+					h.pushDone.Add(1)
+				}
 				w.recs = append(w.recs, rec)
 			}
 			w.done.Store(true)
@@ -886,15 +952,26 @@ func runCase(phase string, i int) worker.Result {
 		go func() {
 			defer rwg.Done()
 			<-start
+			if pingRace {
+				select {
+				case <-h.pingSeen:
+				case <-time.After(500 * time.Millisecond):
+				}
+			}
 			for n := 0; n < 25 && !stopReaders.Load(); n++ {
 				time.Sleep(time.Duration(rrng.IntN(1500)) * time.Microsecond)
 				s := h.subjects[rrng.IntN(len(h.subjects))]
+				c0 := h.clock.Add(1)
 				if rrng.IntN(2) == 0 {
 					repo.Referrers(ctx, s.Desc, "", func([]ocispec.Descriptor) error { return nil })
 				} else {
 					repo.Predecessors(ctx, s.Desc)
 				}
 				readerCalls.Add(1)
+				c1 := h.clock.Add(1)
+				h.mu.Lock()
+				h.readerRecs = append(h.readerRecs, [2]int64{c0, c1})
+				h.mu.Unlock()
 			}
 		}()
 	}
@@ -1026,7 +1103,26 @@ func runCase(phase string, i int) worker.Result {
 	// ---- request trace: protocol after detection
 	h.mu.Lock()
 	logCopy := append([]*reqInfo{}, h.log...)
+	rrecs := append([][2]int64{}, h.readerRecs...)
 	h.mu.Unlock()
+	if pingRace {
+		// the capability was detected (by an acknowledged push) before the held ping was
+		// answered; the protocol rule applies to the requests of operations that STARTED
+		// after that moment, i.e. after every operation that was already running then
+		// has returned
+		fc := h.flipped.Load()
+		detectClock = fc
+		for _, o := range all {
+			if o.Call < fc && o.Ret > detectClock {
+				detectClock = o.Ret
+			}
+		}
+		for _, rr := range rrecs {
+			if rr[0] < fc && rr[1] > detectClock {
+				detectClock = rr[1]
+			}
+		}
+	}
 	apiAfter, tagAfter, apiQuiescent, idxGets := 0, 0, 0, 0
 	for _, q := range logCopy {
 		if q.Class == "rAPI" {
@@ -1041,7 +1137,7 @@ func runCase(phase string, i int) worker.Result {
 			idxGets++
 		}
 	}
-	tagProtocol := mode != "flip-to-tags"
+	tagProtocol := !apiFirst
 	// listing at quiescence
 	type listing struct {
 		refs, preds []ocispec.Descriptor
@@ -1070,7 +1166,7 @@ func runCase(phase string, i int) worker.Result {
 	_ = quiescentClock
 
 	if tagProtocol {
-		if (detect != "" && apiAfter > 0) || apiQuiescent > 0 {
+		if ((detect != "" || (pingRace && h.heldTillPush.Load())) && apiAfter > 0) || apiQuiescent > 0 {
 			res.Violate("capability-flipped:api-request-after-tag-schema-detected", fmt.Sprintf("%d Referrers-API requests after the repository was known not to support the API (%d at quiescence); mode %s", apiAfter, apiQuiescent, mode), witness(nil))
 		}
 		if err := repo.SetReferrersCapability(true); !errors.Is(err, remote.ErrReferrersCapabilityAlreadySet) {
@@ -1311,6 +1407,29 @@ func runCase(phase string, i int) worker.Result {
 				sort.Strings(dangling)
 				res.Violate("dangling-index", fmt.Sprintf("%d superseded referrers index manifest(s) were left in the registry although GC is on and their DELETE was not made to fail", len(dangling)), witness(map[string]any{"dangling": dangling}))
 			}
+		}
+	}
+
+	// In a ping-race round the capability itself may have stayed put (both
+	// SetReferrersCapability probes behaved) while the one Delete that owned the late
+	// ping still acted on the ping's answer instead of the detected capability.
+	if pingRace {
+		capFlipped := false
+		for _, v := range res.Viol {
+			if strings.HasPrefix(v.Key, "capability-flipped:set-") {
+				capFlipped = true
+			}
+		}
+		if !capFlipped {
+			for k := range res.Viol {
+				res.Viol[k].Key = "late-ping-answer-followed:" + res.Viol[k].Key
+				res.Viol[k].What = "the Delete whose Referrers-API ping was answered after the capability had been detected followed the ping's answer, not the detected capability: " + res.Viol[k].What
+			}
+		}
+		if h.heldTillPush.Load() {
+			res.Count("ping_race_rounds_ping_answered_after_a_push_detected_the_capability", 1)
+		} else {
+			res.Count("ping_race_rounds_without_overlap", 1)
 		}
 	}
 
